@@ -23,6 +23,7 @@ type engStats struct {
 	paths           atomic.Int64
 	instrs          atomic.Int64
 	concretizations atomic.Int64
+	merges          atomic.Int64
 }
 
 type Engine struct {
@@ -58,6 +59,7 @@ type Config struct {
 	Trace      bool
 	MaxPaths   int
 	BuildFlags []string
+	NoMerge    bool
 }
 
 type ExternFn func(ex *Exec, caller *frame, fn *ssa.Function, args []Value) Value
@@ -149,6 +151,50 @@ func (e *Engine) buildPkg(p *ssa.Package) {
 	p.Build()
 }
 
+var forkMu sync.Mutex
+var forkSites = map[string]int{}
+
+func (e *Engine) noteFork(ex *Exec) {
+	if os.Getenv("GOSX_FORKS") == "" {
+		return
+	}
+	site := "?"
+	if ex.curFrame != nil {
+		var parts []string
+		for fr := ex.curFrame; fr != nil && len(parts) < 4; fr = fr.caller {
+			line := 0
+			if fr.cur != nil {
+				line = e.prog.Fset.Position(fr.cur.Pos()).Line
+			}
+			parts = append(parts, fmt.Sprintf("%s:%d", shortName(fr.fn.String()), line))
+		}
+		site = strings.Join(parts, " < ")
+	}
+	forkMu.Lock()
+	forkSites[site]++
+	forkMu.Unlock()
+}
+
+func dumpForks() {
+	forkMu.Lock()
+	defer forkMu.Unlock()
+	type kv struct {
+		k string
+		v int
+	}
+	var l []kv
+	for k, v := range forkSites {
+		l = append(l, kv{k, v})
+	}
+	sort.Slice(l, func(i, j int) bool { return l[i].v > l[j].v })
+	for i, e := range l {
+		if i >= 25 {
+			break
+		}
+		fmt.Fprintf(os.Stderr, "FORKS %6d %s\n", e.v, e.k)
+	}
+}
+
 func (e *Engine) noteFunc(name string) {
 	e.funcsMu.Lock()
 	e.funcsEncoded[name] = true
@@ -233,19 +279,20 @@ type ObsVal struct {
 }
 
 type HarnessResult struct {
-	Name       string
-	Paths      int
-	Completed  int
-	Statuses   map[string]int
-	Viols      []Violation
-	Reached    map[string]int
-	Incon      []string
-	Steps      int64
-	Queries    int
-	SolverTime time.Duration
-	Wall       time.Duration
-	Samples    []PathSample
-	MaxDepth   int
+	Name        string
+	Paths       int
+	Completed   int
+	Statuses    map[string]int
+	Viols       []Violation
+	Reached     map[string]int
+	Incon       []string
+	Steps       int64
+	Queries     int
+	SolverTime  time.Duration
+	Wall        time.Duration
+	Samples     []PathSample
+	MaxDepth    int
+	SolverKills int
 }
 
 type PathSample struct {
@@ -399,6 +446,22 @@ func (e *Engine) Explore(name string) (*HarnessResult, error) {
 	}
 	var wg sync.WaitGroup
 	stop := false
+	done := make(chan struct{})
+	if os.Getenv("GOSX_PROGRESS") != "" {
+		go func() {
+			for {
+				select {
+				case <-done:
+					return
+				case <-time.After(10 * time.Second):
+					mu.Lock()
+					fmt.Fprintf(os.Stderr, "progress %s: paths=%d queue=%d active=%d statuses=%v steps=%d\n", name, hr.Paths, len(work), active, hr.Statuses, hr.Steps)
+					mu.Unlock()
+					dumpForks()
+				}
+			}
+		}()
+	}
 	for w := 0; w < nworkers; w++ {
 		wg.Add(1)
 		go func() {
@@ -431,6 +494,15 @@ func (e *Engine) Explore(name string) (*HarnessResult, error) {
 				work = work[:len(work)-1]
 				active++
 				mu.Unlock()
+				if sol != nil && sol.Dead {
+					mu.Lock()
+					hr.Queries += sol.Queries
+					hr.SolverTime += sol.Time
+					hr.SolverKills += sol.Timeouts
+					mu.Unlock()
+					sol.Close()
+					sol = nil
+				}
 				if sol == nil {
 					var err error
 					sol, err = NewSolver(e.cfg.Solver, e.cfg.TimeoutMs)
@@ -452,6 +524,8 @@ func (e *Engine) Explore(name string) (*HarnessResult, error) {
 				}
 				hr.Viols = append(hr.Viols, res.Viols...)
 				switch res.Status {
+				case "violated":
+					hr.Completed++
 				case "ok", "panic", "blocked":
 					hr.Completed++
 					if len(hr.Samples) < 6 || (len(res.Obs) > 0 && len(hr.Samples) < 12) {
@@ -474,6 +548,7 @@ func (e *Engine) Explore(name string) (*HarnessResult, error) {
 		}()
 	}
 	wg.Wait()
+	close(done)
 	hr.Wall = time.Since(t0)
 	return hr, nil
 }
